@@ -111,6 +111,21 @@ package sqlcrud
 //@   callverb fmt.Sprintf "( %s ) VALUES (" cols.sqlColumnNames
 //@   callverb fmt.Sprintf ") VALUES ( %s );" cols.sqlPlaceholders
 //@   callverb fmt.Sprintf "); `,%s)" cols.goValueFields
+//@   -- every statement reads the full column list into the scan destinations of the same order
+//@   callverb fmt.Sprintf "row.Scan( %s )" cols.goScanFields
+//@   callverb fmt.Sprintf "\"SELECT %s FROM" cols.sqlColumnNames
+//@   callverb fmt.Sprintf "pq.CopyIn(\"%s\"," sqlTableName
+//@   callverb fmt.Sprintf "\", %s ))" cols.sqlQuotedColumnNames
+//@   callverb fmt.Sprintf "stmt.Exec(%s)" cols.goValueFields
+//@   -- Delete compares the foreign keys, with one argument per comparison (aligned lists of the loop above)
+//@   callverb fmt.Sprintf "`DELETE FROM %s WHERE" sqlTableName
+//@   callverb fmt.Sprintf "WHERE %s;`" strings.Join(foreignKeyComps, " AND ")
+//@   callverb fmt.Sprintf ";`, %s) return err" strings.Join(foreignKeyAccess, ", ")
+//@   -- the by-key statements compare the key's own column
+//@   callverb fmt.Sprintf "WHERE %s = $1\"" columnName
+//@   callverb fmt.Sprintf "WHERE %s = ANY($1)\"" columnName
+//@   callverb fmt.Sprintf "WHERE %s = ANY($1) RETURNING" columnName
+//@   callverb fmt.Sprintf "\"DELETE FROM %s WHERE" sqlTableName
 //@   loop ta.ForeignKeys().1 index n
 //@   loop ta.ForeignKeys().1 coll fks
 //@   loop ta.ForeignKeys().1 invariant len(foreignKeyFields) == n && len(foreignKeyComps) == n && len(foreignKeyAccess) == n
@@ -132,3 +147,6 @@ package sqlcrud
 //@   callverb fmt.Sprintf ") = ( %s ) WHERE id" cols.sqlPlaceholdersNoPrimary
 //@   callverb fmt.Sprintf "WHERE id = $%s RETURNING" cols.columnsCount
 //@   callverb fmt.Sprintf "WHERE %s = $1" columnName
+//@   callverb fmt.Sprintf "row.Scan( %s )" cols.goScanFields
+//@   callverb fmt.Sprintf "\"SELECT %s FROM" cols.sqlColumnNames
+//@   callverb fmt.Sprintf ") RETURNING %s;" cols.sqlColumnNames
